@@ -188,3 +188,30 @@ func ProofFromPath(path []*RefNode) []ProofNode {
 	}
 	return out
 }
+
+// DecodeKey inverts EncodeKey (returns nil for encodings that are not well formed).
+func DecodeKey(enc []byte) Bits {
+	if len(enc) < 2 {
+		return nil
+	}
+	data, meta := enc[:len(enc)-1], int(enc[len(enc)-1])
+	v := data[len(data)-1]
+	bl := bits.Len8(v)
+	if bl == 0 {
+		bl = 1
+	}
+	L := meta + bl
+	if L > 8 {
+		return nil
+	}
+	out := make(Bits, 0, (len(data)-1)*8+L)
+	for _, b := range data[:len(data)-1] {
+		for j := 7; j >= 0; j-- {
+			out = append(out, (b>>uint(j))&1)
+		}
+	}
+	for j := L - 1; j >= 0; j-- {
+		out = append(out, (v>>uint(j))&1)
+	}
+	return out
+}
